@@ -831,6 +831,31 @@ def r7(ck, F, rid="C07.R7"):
         rows.append((quant, show(p.ret)))
     ok = bool(rows)
     why = "no path tests the per-layer-filter marker"
+    # the same decision written as a loop over the elements (no any()/all() adaptor to read the predicate from): on the
+    # marker paths, `None` is answered exactly after an element that is unfiltered *and* not an absent (None) layer, and
+    # the other elements let the loop go on
+    allp = PathEval(b).run()
+    mk = [p for p in allp if any(show(c[0]).startswith("is_psf_downcast_marker(") and c[1] != 0 for c in p.conds)]
+    if rows and all(q is None for q, _ in rows) and any(p.end == "loop" for p in mk):
+        problems = []
+        seen_none = False
+        for p in mk:
+            cs = [(show(c[0]), c[1]) for c in p.conds]
+            elem = [(t, v) for t, v in cs if t.startswith(("is_none(downcast_raw(", "is_some(downcast_raw("))]
+            unf = [((v != 0) if t.startswith("is_none(") else (v == 0)) for t, v in elem]       # `this test found nothing`
+            if p.end == "return" and show(p.ret).startswith("Option::None") and elem:
+                seen_none = True
+                if not (len(unf) >= 2 and all(unf[-2:])):
+                    problems.append("None is answered after an element that %s" % ("was not tested for being an absent (None) layer" if len(unf) < 2 else "is filtered or absent"))
+            if p.end == "loop" and len(unf) >= 2 and all(unf[-2:]):
+                problems.append("the loop goes on after an unfiltered, present element")
+        if not seen_none:
+            problems.append("no element can make the Vec answer None")
+        if problems:
+            ck.bad(rid, key, where(b.raw["sp"]), "; ".join(sorted(set(problems))), fn=b.path)
+        else:
+            ck.ok(rid, key, fn=b.path, detail="loop spelling")
+        rows, ok = [], None
     for quant, ret in rows:
         if quant is None:
             ok, why = False, "the marker is answered without looking at every element"
@@ -856,7 +881,9 @@ def r7(ck, F, rid="C07.R7"):
         if pred and "[and not a none-layer]" not in pred[0] and "[or a none-layer]" not in pred[0]:
             ok, why = False, ("an Option::None (or empty) element counts as an unfiltered layer: a Vec of filtered layers and a None is not recognised as "
                               "per-layer-filtered, and the enclosing Layered publishes the filters' hint for the whole stack")
-    if ok:
+    if ok is None:
+        pass
+    elif ok:
         ck.ok(rid, key, fn=b.path, detail=[str(r) for r in rows])
     else:
         ck.bad(rid, key, where(b.raw["sp"]), why, fn=b.path)
